@@ -5,10 +5,10 @@ go 1.21
 require (
 	github.com/anishathalye/porcupine v1.3.0
 	github.com/hugelgupf/p9 v0.0.0
+	github.com/u-root/uio v0.0.0-20230305220412-3e8cd9d6bf63
 )
 
 require (
-	github.com/u-root/uio v0.0.0-20230305220412-3e8cd9d6bf63 // indirect
 	golang.org/x/exp v0.0.0-20231219180239-dc181d75b848 // indirect
 	golang.org/x/sys v0.15.0 // indirect
 )
